@@ -547,7 +547,7 @@ def main():
                 rp = write_replay(prop, tier, seed, "oracle", {"failure": o, "all": stats_all["oracle_failures"][:20]})
                 violations.append(("implementation vs oracle: " + o[:200], rp, True))
         reported_oracle = len(stats_all["oracle_failures"])
-        if (d_tier == "quick" and len(d_tiers) == 1 and harness_ok and driver_ok
+        if (d_tier == "quick" and len(d_tiers) == 1 and harness_ok and driver_ok and not os.environ.get("VERIF_NO_ESCALATE")
                 and any(not ok for _, ok, _ in obligations) and not any(v[2] for v in violations)):
             d_tiers.append("thorough")
             notes.append("a proof obligation is broken and the quick search found no failing input: searching again with the thorough generators")
